@@ -358,7 +358,7 @@ _SW = ("swallow-then-cancel-again family (a worker that shrugged off one cancell
 _UC = ("unlock-while-closing family (unlock() during a pending gather_and_close(), no request in that window: the pool still ends closed for good)", lambda t: unlock_while_closing_family())
 FAMILIES = {"C09": [_RC, _FC, _UC], "C05": [_SM], "C01": [_FS], "C08": [("overlap family (cancel, flush, cancel, callbacks let go in every order) followed by gather_and_close while a callback still runs",
                     lambda t: overlap_family([[{"op": "close", "pool": 0, "place": "eager", "re": True}] + DRAIN, [{"op": "close", "pool": 0, "place": "task"}, {"op": "until_closed", "pool": 0, "place": "task"}] + DRAIN], thin=_thin(t, 4))),
-                   _UC, _FC, _FS, _DC, ("abandon-then-close family (a task left in asyncio's cancelled state by the user's own cancellation of a flush() caller, healthy tasks still running at gather_and_close)", lambda t: abandon_then_close_family(_thin(t, 2)))], "C02": [_BS, _FS, _DC], "C03": [_TP, _FX, _DC, _TF], "C04": [_NR, _BS], "C06": [_WF, _TP, _FR, _FX, _TF, _SW, ("many-ended family (600 / 1100 ended, unflushed tasks: their ids still answer AlreadyEnded)", lambda t: many_ended_family())], "C13": [_FX, _TF], "C07": [_NR, _WF, _FS, _DC, _SM, _SW, ("cancel-then-close family (a group cancelled before its spawner ran, a sibling still feeding, gather_and_close in that state)", lambda t: cancel_then_close_family())], "C10": [_NR], "C11": [_BS, _TP, ("thousand-tasks family (ids with four digits in task names, groups, callbacks)", lambda t: thousand_tasks_family())], "C14": [_BSS, _SW, ("big-stop family (stop(n) for n = 255..290 among 300 running tasks)", lambda t: big_stop_family())]}
+                   _UC, _FC, _FS, _DC, ("abandon-then-close family (a task left in asyncio's cancelled state by the user's own cancellation of a flush() caller, healthy tasks still running at gather_and_close)", lambda t: abandon_then_close_family(_thin(t, 2)))], "C02": [_BS, _FS, _DC], "C03": [_TP, _FX, _DC, _TF, ("many-ended family (600 / 1100 ended, unflushed tasks still counted)", lambda t: many_ended_family())], "C04": [_NR, _BS], "C06": [_WF, _TP, _FR, _FX, _TF, _SW, ("many-ended family (600 / 1100 ended, unflushed tasks: their ids still answer AlreadyEnded)", lambda t: many_ended_family())], "C13": [_FX, _TF], "C07": [_NR, _WF, _FS, _DC, _SM, _SW, ("cancel-then-close family (a group cancelled before its spawner ran, a sibling still feeding, gather_and_close in that state)", lambda t: cancel_then_close_family())], "C10": [_NR], "C11": [_BS, _TP, ("thousand-tasks family (ids with four digits in task names, groups, callbacks)", lambda t: thousand_tasks_family())], "C14": [_BSS, _SW, ("big-stop family (stop(n) for n = 255..290 among 300 running tasks)", lambda t: big_stop_family())]}
 
 
 def make(pid: str) -> SimEngine:
